@@ -224,3 +224,115 @@ Print Assumptions c06_symlink_root_refused.
 Print Assumptions c06_symlink_root_followed.
 Print Assumptions c06_plain_root_not_refused.
 Print Assumptions c06_symlink_root_instance.
+
+(** * the whole create pipeline (X7)
+
+    The listing above is over the walker's own [tree] (sizes only). `torrent create` hands that
+    listing to the hasher, and `torrent verify` later looks the listed paths up again; the models of
+    those two (C01, C02/C03) work over Model/Fs.v's content tree [node]. Model/CreateWalk.v connects
+    them with a size-erasing map [erase : node -> tree] (a file becomes its length, a directory keeps
+    its entries in order), so every theorem above applies to [walk c (erase src)] as it stands.
+    [Fs.node] has no symlinks, hence the fragment is the link-free trees; there `--follow-symlinks`
+    is irrelevant, the walk never refuses and never fails. [wf_node] says what every directory
+    tree shown by an operating system satisfies: sibling names distinct, each name one plain
+    component. The statements: what the walker lists of [erase src] is exactly the set of regular
+    files [Fs.lookup] / [Fs.resolve] find below [src] that pass the documented filters, with their
+    lengths; each listed path is plain; no path twice; sorted by the real comparison.
+    Proofs: Proofs/CreateWalkProofs.v. The composition with the hasher and the verifier is in
+    Properties/C02.v (same heading). *)
+From Imdl Require Model.Fs Model.Verify Model.CreateVerify Model.CreateWalk Proofs.VerifyProofs Proofs.CreateWalkProofs
+     Proofs.CreateWalkExamples.
+
+Check CreateWalkProofs.walk_selection_resolves :
+  forall (pat : Type) (gmatch : pat -> list (list N) -> bool) (c : cfg pat) ch files,
+  CreateWalk.wf_node (Fs.Dir ch) -> walk pat gmatch c (CreateWalk.erase (Fs.Dir ch)) = WalkListing files ->
+  forall pa sz, In (pa, sz) files <->
+                exists d, Fs.lookup (Fs.Dir ch) pa = Some (Fs.File d) /\ sz = Verify.blen d /\
+                          CreateWalk.selected pat gmatch c pa = true.
+Theorem c06_walk_selection_resolves :
+  forall (pat : Type) (gmatch : pat -> list (list N) -> bool) (c : cfg pat) ch files,
+  CreateWalk.wf_node (Fs.Dir ch) -> walk pat gmatch c (CreateWalk.erase (Fs.Dir ch)) = WalkListing files ->
+  forall pa sz, In (pa, sz) files <->
+                exists d, Fs.lookup (Fs.Dir ch) pa = Some (Fs.File d) /\ sz = Verify.blen d /\
+                          CreateWalk.selected pat gmatch c pa = true.
+Proof. exact CreateWalkProofs.walk_selection_resolves. Qed.
+
+(** [selected] is C06's documented per-path predicate, nothing else *)
+Theorem c06_selected_is_included :
+  forall (pat : Type) (gmatch : pat -> list (list N) -> bool) (c : cfg pat) e,
+  included pat gmatch c e = CreateWalk.selected pat gmatch c (fst e).
+Proof. exact CreateWalkProofs.included_selected. Qed.
+
+(** under any absolute root that resolves to the input, the verifier's [resolve] finds every listed
+    path as a regular file of the listed length *)
+Theorem c06_walk_selection_resolves_fs :
+  forall (pat : Type) (gmatch : pat -> list (list N) -> bool) (c : cfg pat) ch files fs root,
+  CreateWalk.wf_node (Fs.Dir ch) -> Fs.resolve fs root = Some (Fs.Dir ch) ->
+  walk pat gmatch c (CreateWalk.erase (Fs.Dir ch)) = WalkListing files ->
+  forall pa sz, In (pa, sz) files ->
+                exists d, Fs.resolve fs (Fs.absolute root pa) = Some (Fs.File d) /\ sz = Verify.blen d.
+Proof. exact CreateWalkProofs.walk_selection_resolves_fs. Qed.
+
+Check CreateWalkProofs.walk_selection_plain :
+  forall (pat : Type) (gmatch : pat -> list (list N) -> bool) (c : cfg pat) ch files,
+  CreateWalk.wf_node (Fs.Dir ch) -> walk pat gmatch c (CreateWalk.erase (Fs.Dir ch)) = WalkListing files ->
+  Forall VerifyProofs.plain_path (map fst files).
+Theorem c06_walk_selection_plain :
+  forall (pat : Type) (gmatch : pat -> list (list N) -> bool) (c : cfg pat) ch files,
+  CreateWalk.wf_node (Fs.Dir ch) -> walk pat gmatch c (CreateWalk.erase (Fs.Dir ch)) = WalkListing files ->
+  Forall VerifyProofs.plain_path (map fst files).
+Proof. exact CreateWalkProofs.walk_selection_plain. Qed.
+
+Theorem c06_walk_selection_nodup :
+  forall (pat : Type) (gmatch : pat -> list (list N) -> bool) (c : cfg pat) n files,
+  CreateWalk.wf_node n -> walk pat gmatch c (CreateWalk.erase n) = WalkListing files -> NoDup (map fst files).
+Proof. exact CreateWalkProofs.walk_selection_nodup. Qed.
+
+Theorem c06_walk_selection_sorted :
+  forall (pat : Type) (gmatch : pat -> list (list N) -> bool) (c : cfg pat) n files,
+  walk pat gmatch c (CreateWalk.erase n) = WalkListing files -> sorted_by (sort_by c) files.
+Proof. exact CreateWalkProofs.walk_selection_sorted. Qed.
+
+(** the fragment: no links, so no refusal, no failure, and `--follow-symlinks` changes nothing *)
+Theorem c06_walk_erased_outcome :
+  forall (pat : Type) (gmatch : pat -> list (list N) -> bool) (c : cfg pat),
+  (forall d, walk pat gmatch c (CreateWalk.erase (Fs.File d)) = WalkSingle (Verify.blen d)) /\
+  (forall ch, walk pat gmatch c (CreateWalk.erase (Fs.Dir ch)) =
+              WalkListing (isort (leb (sort_by c))
+                             (filter (included pat gmatch c) (all_files pat c (CreateWalk.erase (Fs.Dir ch)))))).
+Proof.
+  intros pat gmatch c. split; [exact (CreateWalkProofs.walk_erase_file pat gmatch c)|exact (CreateWalkProofs.walk_erase_dir pat gmatch c)].
+Qed.
+
+Theorem c06_walk_erased_follow_irrelevant :
+  forall (pat : Type) (gmatch : pat -> list (list N) -> bool) h j f f' ps sb n,
+  walk pat gmatch (Build_cfg h j f ps sb) (CreateWalk.erase n) =
+  walk pat gmatch (Build_cfg h j f' ps sb) (CreateWalk.erase n).
+Proof. exact CreateWalkProofs.walk_erase_follow_irrelevant. Qed.
+
+(** well-formedness and permutation of content trees are those of the walker's trees *)
+Theorem c06_erase_wf_perm :
+  (forall n, CreateWalk.wf_node n -> wf_tree (CreateWalk.erase n)) /\
+  (forall s s', CreateWalk.node_perm s s' -> tree_perm (CreateWalk.erase s) (CreateWalk.erase s')).
+Proof. split; [exact CreateWalkProofs.erase_wf|exact CreateWalkProofs.erase_perm]. Qed.
+
+(** instance: a hidden file, a junk file, a glob-excluded file, two included files - with contents *)
+Example c06_walk_selection_instance :
+  CreateWalk.wf_node CreateWalkExamples.w_src /\
+  walk_table CreateWalkExamples.w_cfg (CreateWalk.erase CreateWalkExamples.w_src) =
+  WalkListing [([nm "b"], 6); ([nm "d"; nm "a"], 5)] /\
+  walk_table CreateWalkExamples.w_cfg_size (CreateWalk.erase CreateWalkExamples.w_src) =
+  WalkListing [([nm "d"; nm "a"], 5); ([nm "b"], 6)] /\
+  Fs.lookup CreateWalkExamples.w_src [nm "d"; nm "a"] = Some (Fs.File (nm "abcde")).
+Proof. split; [exact CreateWalkExamples.w_src_wf|]. vm_compute. repeat split. Qed.
+
+Print Assumptions c06_walk_selection_resolves.
+Print Assumptions c06_selected_is_included.
+Print Assumptions c06_walk_selection_resolves_fs.
+Print Assumptions c06_walk_selection_plain.
+Print Assumptions c06_walk_selection_nodup.
+Print Assumptions c06_walk_selection_sorted.
+Print Assumptions c06_walk_erased_outcome.
+Print Assumptions c06_walk_erased_follow_irrelevant.
+Print Assumptions c06_erase_wf_perm.
+Print Assumptions c06_walk_selection_instance.
